@@ -96,7 +96,7 @@ impl Gen {
     }
     fn use_type(&mut self) -> String {
         let path = if self.r.chance(50) { self.pkg_path() } else { self.id() };
-        let items: Vec<String> = (0..1 + self.r.below(3)).map(|i| if self.r.chance(40) { format!("u{i} as {}", self.fresh("n")) } else { self.fresh("n") }).collect();
+        let items: Vec<String> = (0..1 + self.r.below(3)).map(|_| if self.r.chance(40) { format!("{} as {}", self.id(), self.id()) } else { self.id() }).collect();
         format!("use {path}.{{{}}};", self.sep(items))
     }
     fn interface_items(&mut self) -> String {
@@ -118,7 +118,7 @@ impl Gen {
             let it = match self.r.below(7) {
                 0 => self.use_type(), 1 => self.type_decl(), 2 => self.resource(),
                 3 | 4 => { let kw = if self.r.chance(50) { "import" } else { "export" }; let p = match self.r.below(3) { 0 => format!("{}: {}", self.fresh("w"), self.extern_type()), 1 => self.pkg_path(), _ => self.id() }; format!("{}{kw} {p};", self.docs()) }
-                _ => { let r = if self.r.chance(50) { self.pkg_path() } else { self.id() }; if self.r.chance(40) { let items: Vec<String> = (0..1 + self.r.below(2)).map(|i| format!("i{i} as {}", self.fresh("j"))).collect(); format!("include {r} with {{ {} }};", self.sep(items)) } else { format!("include {r};") } }
+                _ => { let r = if self.r.chance(50) { self.pkg_path() } else { self.id() }; if self.r.chance(40) { let items: Vec<String> = (0..1 + self.r.below(2)).map(|_| format!("{} as {}", self.id(), self.id())).collect(); format!("include {r} with {{ {} }};", self.sep(items)) } else { format!("include {r};") } }
             };
             s.push_str(&it);
         }
@@ -186,6 +186,23 @@ fn strip(v: &mut Value) {
     }
 }
 
+/// every leaf token of the tree (an object with a string-valued `string` and a `span`: identifiers, string literals,
+/// package names and paths) together with the source text at its span: `%` escapes and quotes live only there
+fn leaf_texts(v: &Value, src: &str, out: &mut Vec<String>) {
+    match v {
+        Value::Object(m) => {
+            if let (Some(Value::String(_)), Some(Value::Object(sp))) = (m.get("string"), m.get("span")) {
+                if let (Some(o), Some(l)) = (sp.get("offset").and_then(|x| x.as_u64()), sp.get("length").and_then(|x| x.as_u64())) {
+                    out.push(src.get(o as usize..(o + l) as usize).unwrap_or("<span outside the source>").to_string());
+                }
+            }
+            for (_, x) in m { leaf_texts(x, src, out); }
+        }
+        Value::Array(a) => for x in a { leaf_texts(x, src, out); },
+        _ => {}
+    }
+}
+
 fn first_diff(a: &Value, b: &Value, path: String) -> String {
     match (a, b) {
         (Value::Object(x), Value::Object(y)) => {
@@ -207,6 +224,12 @@ fn roundtrip(src: &str, origin: &str) -> Result<bool, String> {
     DocumentPrinter::new(&mut s1, src, None).document(&t1).map_err(|e| format!("printing failed: {e}"))?;
     let t2 = Document::parse(&s1).map_err(|e| format!("the printed text does not parse ({e}); {origin}\n--- source\n{src}\n--- printed\n{s1}"))?;
     let (mut j1, mut j2) = (serde_json::to_value(&t1).unwrap(), serde_json::to_value(&t2).unwrap());
+    let (mut l1, mut l2) = (vec![], vec![]);
+    leaf_texts(&j1, src, &mut l1); leaf_texts(&j2, &s1, &mut l2);
+    if l1 != l2 {
+        let k = l1.iter().zip(l2.iter()).position(|(a, b)| a != b).unwrap_or(l1.len().min(l2.len()));
+        return Err(format!("a token is altered by printing: `{}` became `{}`; {origin}\n--- source\n{src}\n--- printed\n{s1}", l1.get(k).cloned().unwrap_or_default(), l2.get(k).cloned().unwrap_or_default()));
+    }
     strip(&mut j1); strip(&mut j2);
     if j1 != j2 { return Err(format!("the printed text parses to a different tree (first difference at {}); {origin}\n--- source\n{src}\n--- printed\n{s1}", first_diff(&j1, &j2, String::new()))); }
     let mut s2 = String::new();
